@@ -1,0 +1,40 @@
+//go:build verif
+// +build verif
+
+package rafthttp
+
+import (
+	"bytes"
+	"io/ioutil"
+	"net/http"
+
+	"github.com/youzan/ZanRedisDB/pkg/types"
+	"github.com/youzan/ZanRedisDB/raft/raftpb"
+	"github.com/youzan/ZanRedisDB/snap"
+)
+
+// Export for the verification harness (/verif, property C16, transfer-status stage): the
+// real snapshotSender (peer.go: newSnapshotSender(tr, picker, to, status)) posting through a
+// RoundTripper of the harness and reporting to a Raft of the harness.  No behaviour change.
+
+// VerifSnapshotSender wraps a snapshotSender.
+type VerifSnapshotSender struct{ s *snapshotSender }
+
+// VerifNewSnapshotSender is `newSnapshotSender(tr, picker, to, status)`.
+func VerifNewSnapshotSender(local, peer types.ID, url string, rt http.RoundTripper, r Raft) (*VerifSnapshotSender, error) {
+	picker, err := verifPicker(url)
+	if err != nil {
+		return nil, err
+	}
+	return &VerifSnapshotSender{newSnapshotSender(verifTransport(local, r, rt), picker, peer, newPeerStatus(peer))}, nil
+}
+
+// Send is `snapshotSender.send(merged)` with merged = snap.NewMessage(m, data reader, size),
+// as node/raft.go builds it.  It returns when send returns (the failure reports are made
+// before that; the success report comes from the sender's status-polling goroutine).
+func (v *VerifSnapshotSender) Send(m raftpb.Message, data []byte) {
+	v.s.send(*snap.NewMessage(m, ioutil.NopCloser(bytes.NewReader(data)), int64(len(data))))
+}
+
+// Stop is snapshotSender.stop().
+func (v *VerifSnapshotSender) Stop() { v.s.stop() }
